@@ -448,10 +448,10 @@ fn ikind() -> BoxedStrategy<IKind> {
 }
 
 fn spec() -> BoxedStrategy<Spec> {
-    (any::<bool>(), prop_oneof![3 => Just(None), 1 => Just(Some(8u32)), 1 => Just(Some(100u32)), 2 => Just(Some(1024u32)), 1 => Just(Some(1428u32)), 1 => Just(Some(4096u32))], prop_oneof![2 => Just(None), 1 => (1u16..5).prop_map(Some)], 0usize..5, 0usize..600)
+    (any::<bool>(), prop_oneof![3 => Just(None), 1 => Just(Some(8u32)), 1 => Just(Some(100u32)), 2 => Just(Some(1024u32)), 1 => Just(Some(1428u32)), 1 => Just(Some(4096u32)), 1 => Just(Some(8192u32)), 1 => Just(Some(16384u32))], prop_oneof![2 => Just(None), 1 => (1u16..5).prop_map(Some)], 0usize..5, 0usize..600)
         .prop_map(|(write, blk, ws, blocks, rem)| {
             let b = blk.unwrap_or(512) as usize;
-            let blocks = if b <= 8 { blocks * 3 } else { blocks };
+            let blocks = if b <= 8 { blocks * 3 } else if b >= 8192 { blocks.min(3) } else { blocks };
             Spec { write, blk, ws, len: blocks * b + rem % b }
         })
         .boxed()
